@@ -53,7 +53,11 @@ def parseRing (s : String) : Option RingSt :=
   | "noaccess" => some .noaccess
   | "fail" => some .platfail
   | "nostore" => some .nostore
-  | _ => (parseKeyTok s).map .key
+  | _ =>
+    -- rdk<n> / rdnk<n>: the entry k<n> is stored but unreadable (read error → Keyring / → KeyringNotInitialized)
+    if s.startsWith "rdn" then (parseKeyTok (s.drop 3).toString).map (fun k => .rdfail k true)
+    else if s.startsWith "rd" then (parseKeyTok (s.drop 2).toString).map (fun k => .rdfail k false)
+    else (parseKeyTok s).map .key
 
 def parseCtor (s : String) : Option Ctor :=
   match s with
@@ -77,6 +81,7 @@ def showRing : RingSt → String
   | .noaccess => "noaccess"
   | .platfail => "fail"
   | .nostore => "nostore"
+  | .rdfail k ni => (if ni then "rdn" else "rd") ++ showKey k
 
 def showErr : ErrKind → String
   | .unencryptedWithEncryption => "UnencryptedDatabaseWithEncryption"
